@@ -343,7 +343,11 @@ def render_fn(p, fid, ctx, prelude):
         lines.append("    r.append(x%d)" % i)
     if f.get("fail") and f["fail"].get("when", "end") == "end":
         lines.append("    raise vlog.make_exc(%r, %s, 'boom from %s')" % (f["name"], f["fail"]["cls"], f["name"]))
-    if f.get("ret") == "str":
+    if f.get("ret") == "empty_str":
+        lines.append("    return \"\"")
+    elif f.get("ret") == "empty_bytes":
+        lines.append("    return b\"\"")
+    elif f.get("ret") == "str":
         lines.append("    return \"|\".join(repr(y) for y in r)")
     else:
         lines.append("    return tuple(r)")
